@@ -34,16 +34,25 @@ type hSim struct {
 	n      int
 	events []hEvent
 
-	issued    map[string]*issue // sid -> what the redirect that issued it generated
-	cookieIDs map[string]bool   // every sid ever sent in a Set-Cookie by the service
-	idpTokens map[string]bool   // every token string the (fake) IdP ever returned or was scripted to return
-	lastRT    map[string]string // sid -> most recent refresh token issued by the IdP for that session
-	loggedOut map[string]bool   // sid -> a logout for it was answered and no login completed since
-	secrets   []string          // marker values that must never reach the user agent
+	issued    map[string]*issue              // sid -> what the redirect that issued it generated
+	cookieIDs map[string]bool                // every sid ever sent in a Set-Cookie by the service
+	idpTokens map[string]bool                // every token string the (fake) IdP ever returned or was scripted to return
+	lastRT    map[string]string              // sid -> most recent refresh token issued by the IdP for that session
+	loggedOut map[string]bool                // sid -> a logout for it was answered and no login completed since
+	secrets   []string                       // marker values that must never reach the user agent
 	stored    map[string]*oidc.TokenResponse // sid -> tokens last stored successfully (ghost)
-	kept      []keptResp        // answers already returned, re-examined after later requests
+	kept      []keptResp                     // answers already returned, re-examined after later requests
+	life      map[string]*sessLife           // sid -> ghost of the session's lifetime (absolute / idle timeouts)
 	stop      bool
 	schedMode bool // interleaved run: the after-logout monitor lives in the scheduler scenario
+}
+
+// sessLife over-approximates how recently a session can have been accessed: EVERY request that presented the id counts
+// as an access at its time, whether or not it reached the store. So when even this ghost is past a timeout the real
+// session is, and once a request has found it expired it is gone for good (ids are never re-issued).
+type sessLife struct {
+	created, last time.Time
+	dead          bool
 }
 
 type keptResp struct {
@@ -53,7 +62,7 @@ type keptResp struct {
 }
 
 func newHSim(r *Run, c hCfg) *hSim {
-	s := &hSim{r: r, w: newHWorld(c), issued: map[string]*issue{}, cookieIDs: map[string]bool{}, idpTokens: map[string]bool{},
+	s := &hSim{r: r, w: newHWorld(c), issued: map[string]*issue{}, life: map[string]*sessLife{}, cookieIDs: map[string]bool{}, idpTokens: map[string]bool{},
 		lastRT: map[string]string{}, loggedOut: map[string]bool{}, stored: map[string]*oidc.TokenResponse{}}
 	s.secrets = append(s.secrets, c.Secret)
 	s.w.emitPrelude(r)
@@ -102,7 +111,7 @@ func (s *hSim) rotateKeys() {
 }
 
 func (s *hSim) violateRaw(prop, what string, extra map[string]any) { s.violate(prop, what, extra) }
-func (s *hSim) monitorSched(q hReq, o hObs)                          { s.monitor(q, o) }
+func (s *hSim) monitorSched(q hReq, o hObs)                        { s.monitor(q, o) }
 
 func (s *hSim) tick(d time.Duration) {
 	s.events = append(s.events, hEvent{Tick: d})
@@ -228,6 +237,20 @@ func (s *hSim) monitor(q hReq, o hObs) {
 		s.violate("C15", "ill-formed verdict: status and body are inconsistent", map[string]any{"request": q, "response": showResp(o.Resp, nil)})
 	}
 	sid := s.presentedSid(q)
+	// ---- C01 / C10: the session's own lifetime (absolute and idle timeout of the configured store)
+	if g := s.life[sid]; g != nil && sid != "" && !q.NoHTTP && (c.Abs > 0 || c.Idle > 0) {
+		if !g.dead && ((c.Idle > 0 && o.Now.Sub(g.last) > c.Idle) || (c.Abs > 0 && o.Now.Sub(g.created) > c.Abs)) {
+			g.dead = true
+			s.r.Dist["session-timed-out"]++
+		}
+		if !g.dead {
+			g.last = o.Now
+		}
+		if g.dead && isOK {
+			s.violate("C01", "OK for a session that had outlived its idle or absolute session timeout when it was presented",
+				map[string]any{"request": q, "sid": sid, "created": g.created, "last_presented_before": g.last, "now": o.Now, "absolute": c.Abs.String(), "idle": c.Idle.String()})
+		}
+	}
 	anyFault := false
 	var lastGetTok *spyCall
 	var setToks []spyCall
@@ -320,6 +343,13 @@ func (s *hSim) monitor(q hReq, o hObs) {
 			s.violate("C02", "an ID token without a valid signature under the configured key set was bound to a session", map[string]any{"request": q, "token": t.IDToken})
 		case !audOK:
 			s.violate("C02", "an ID token whose audience does not contain the client id was bound to a session", map[string]any{"request": q, "token": t.IDToken})
+		}
+		// C11: "if the exchange or the VALIDATION OF ITS RESULT fails, the request is not allowed and the stale session is
+		// removed": the result of a refresh is the merged token set that is written back; its ID token (new or carried over)
+		// must verify under the key set in force NOW and name this client
+		if len(o.IDP) > 0 && o.IDP[0].Form.Get("grant_type") == "refresh_token" && (err != nil || !sigOKIndependent(t.IDToken) || !audOK) {
+			s.violate("C11", "the result of a refresh was stored (and the request allowed) although its ID token does not validate under the current key set / audience",
+				map[string]any{"request": q, "token": t.IDToken, "parse_error": fmt.Sprint(err), "audience_ok": audOK})
 		}
 		if len(o.IDP) > 0 && o.IDP[0].Form.Get("grant_type") == "authorization_code" && err == nil {
 			iss := s.issued[st.ID]
@@ -584,6 +614,7 @@ func (s *hSim) checkAuthRedirect(q hReq, o hObs, loc, sc, presented string) {
 	}
 	iss := &issue{Sid: newSid, Nonce: set.Auth.Nonce, State: set.Auth.State, Verifier: set.Auth.CodeVerifier, URL: set.Auth.RequestedURL}
 	s.issued[newSid] = iss
+	s.life[newSid] = &sessLife{created: o.Now, last: o.Now}
 	s.secrets = append(s.secrets, iss.Verifier)
 	wantURL := q.Scheme + "://" + q.Host + q.Path
 	if q.Query != "" {
